@@ -125,10 +125,16 @@ def run(repo, rep, tier):
     def _digit_group(func_, name_):
         """the local `name_` is assigned once from <match>.group(k) and the k-th group of the constant pattern matches decimal digits only"""
         import re._parser as _rp        # noqa: PLC0415
-        defs_ = [d for d in walk_no_nested(func_) if isinstance(d, ast.Assign) and any(isinstance(t, ast.Name) and t.id == name_ for t in d.targets)]
-        if len(defs_) != 1 or not (isinstance(defs_[0].value, ast.Call) and isinstance(defs_[0].value.func, ast.Attribute) and defs_[0].value.func.attr == 'group' and len(defs_[0].value.args) == 1 and isinstance(defs_[0].value.args[0], ast.Constant)):
+        if isinstance(name_, ast.Name):
+            defs_ = [d for d in walk_no_nested(func_) if isinstance(d, ast.Assign) and any(isinstance(t, ast.Name) and t.id == name_.id for t in d.targets)]
+            if len(defs_) != 1:
+                return False
+            gcall = defs_[0].value
+        else:
+            gcall = name_
+        if not (isinstance(gcall, ast.Call) and isinstance(gcall.func, ast.Attribute) and gcall.func.attr == 'group' and len(gcall.args) == 1 and isinstance(gcall.args[0], ast.Constant)):
             return False
-        k_ = defs_[0].value.args[0].value
+        k_ = gcall.args[0].value
         pats_ = [c.args[0].value for c in walk_no_nested(func_) if isinstance(c, ast.Call) and unparse(c.func) in ('re.match', 're.search', 're.fullmatch') and c.args and isinstance(c.args[0], ast.Constant) and isinstance(c.args[0].value, str)]
         if len(pats_) != 1:
             return False
@@ -177,13 +183,13 @@ def run(repo, rep, tier):
                 psites.append((n, 'explicit raise'))
             elif isinstance(n, ast.Call) and isinstance(n.func, ast.Name) and n.func.id == 'int' and len(n.args) == 1:
                 a_ = n.args[0]
-                if isinstance(a_, ast.Name) and _digit_group(php, a_.id):
+                if isinstance(a_, (ast.Name, ast.Call)) and _digit_group(php, a_):
                     continue
                 psites.append((n, 'int() of text that need not be a number'))
         for n, what_ in psites:
             rep.check('escape', 'parsing one target entry cannot end the whole run: %s' % stmt_text(enclosing(n))[:60], False, n,
                       'ValueError (%s) in Utils.parse_host_and_port leaves main() while the target list is parsed, before any target is scanned: one bad entry of the targets file aborts the whole multi-target run with a traceback, and no listed target gets a result block' % what_,
-                      func='utils:Utils.parse_host_and_port', stmt='ValueError @ %s' % stmt_text(enclosing(n)))
+                      func='utils:Utils.parse_host_and_port', stmt='target entry parser: %s' % (what_ if what_ != 'explicit raise' else 'explicit raise @ %s' % stmt_text(enclosing(n))))
     # ---- rule 2: ranked codes -----------------------------------------------------------------------------------------------
     codes = {k: ce.lookup('exitcodes', k) for k in ('GOOD', 'WARNING', 'FAILURE', 'CONNECTION_ERROR', 'UNKNOWN_ERROR')}
     rl = [n for n in walk_no_nested(mn) if isinstance(n, ast.Assign) and unparse(n.targets[0]) == 'ranked_return_codes']
